@@ -80,6 +80,9 @@ HdrViol(ev) ==
               THEN {"C09 acceptable host-order header refused by decode/reconstruct"} ELSE {})
    \cup (IF (ev.finv # 0) # inv /\ ~FragmentInvalidDontCare(InstOf(ev), h) THEN {"C12 fragment validation verdict"} ELSE {})
    \cup (IF ev.unch # 1 THEN {"C09 validation modified the fragment"} ELSE {})
+   \* every call made on the mutated fragment (metadata query, validation, decode, reconstruct - outputs handed back)
+   \* returns the ledger to where it was: error paths after buffers were prepared included
+   \cup (IF Has(ev, "lh0") /\ ev.lh1 # ev.lh0 THEN {"C16 calls on a mutated fragment changed the live block count (error path kept or over-released memory)"} ELSE {})
 FinvViol(ev) ==
    LET h == Tup(ev.hdr) IN
    IF (ev.finv # 0) # FragmentInvalid(InstOf(ev), h, Tup(ev.pay)) /\ ~FragmentInvalidDontCare(InstOf(ev), h)
